@@ -266,6 +266,23 @@ def run_once(prefix, req, k):
     return res
 
 
+def situation(req, pre):
+    """Fine-grained identity of a name-ownership request for fingerprints: the caller's role for the name before the
+    request (new / primary / queued) and the request's flags, so that a recorded finding only covers that exact shape."""
+    if req[0] not in ('req', 'rel'):
+        return req[0]
+    role = 'new'
+    for line in pre.split('|'):
+        if line.startswith('svc ' + N1.decode() + ' ') or line.startswith('svc ' + N1.decode() + '|'):
+            owners = [x.split(':')[0] for x in line.split(' ')[2:]]
+            me = '@' + req[1]
+            if me in owners:
+                role = 'primary' if owners.index(me) == 0 else 'queued'
+            elif owners:
+                role = 'new-behind-%d' % len(owners)
+    return '%s[%s%s]' % (req[0], role, (',f%d' % req[2]) if req[0] == 'req' else '')
+
+
 def classify(res):
     """-> 'nomem' if the caller got exactly one NoMemory error for its serial and nobody got anything else; else 'other'."""
     obs = res['obs']
@@ -312,7 +329,7 @@ def task_bus(t):
                 if r['post'] != r['pre']:
                     d0, d1 = diff_dump(r['pre'], r['post'])
                     kinds_changed = '+'.join(sorted({x.split(' ')[0] for x in d0 + d1}))
-                    out.append(Violation('oom-state-changed', req[0] + ':' + kinds_changed, 'request %r from prefix %r, allocation %d failing: caller got NoMemory but the state changed\n before: %s\n after : %s' %
+                    out.append(Violation('oom-state-changed', situation(req, r['pre']) + ':' + kinds_changed, 'request %r from prefix %r, allocation %d failing: caller got NoMemory but the state changed\n before: %s\n after : %s' %
                                          (req, prefix, k, diff_dump(r['pre'], r['post'])[0], diff_dump(r['pre'], r['post'])[1]), case))
                 else:
                     # retry on the same bus must now give the complete outcome
